@@ -259,8 +259,16 @@ class ReducedDensityMatrixPropagator(MatrixData, Saveable):
         """
         
         if Nref > 1:
+            # the refinement submitted here holds for this call only;
+            # the propagator's own setting is restored afterwards, so that
+            # later calls do not depend on what was propagated before
+            saved = (self.Nref, self.dt)
             self.setDtRefinement(Nref)
-        
+            try:
+                return self.propagate(rhoi, method=method, mdata=mdata)
+            finally:
+                (self.Nref, self.dt) = saved
+
         #
         # Testing if the object submitted is density matrix
         #
